@@ -937,7 +937,11 @@ impl<'de> Deserialize<'de> for CompoundType {
     where
         D: Deserializer<'de>,
     {
-        Type::deserialize(deserializer).map(Self::from)
+        use serde::de::Error;
+
+        let ty = Type::deserialize(deserializer)?;
+        Self::try_from_type(ty)
+            .ok_or_else(|| D::Error::custom("type has too many nested array/map layers"))
     }
 }
 
@@ -951,17 +955,24 @@ impl CompoundType {
         }
     }
 
-    /// Converts a [`Type`] into a [`CompoundType`].
+    /// Converts a [`Type`] into a [`CompoundType`], or returns `None` if the
+    /// type has more layers than can be represented.
     #[inline]
-    pub const fn from_type(ty: Type) -> Self {
-        match match ty {
+    const fn try_from_type(ty: Type) -> Option<Self> {
+        match ty {
             Type::Bool => Some(Self::new(PrimitiveType::Bool)),
             Type::Bytes => Some(Self::new(PrimitiveType::Bytes)),
             Type::Int => Some(Self::new(PrimitiveType::Int)),
             Type::Ip => Some(Self::new(PrimitiveType::Ip)),
             Type::Array(ty) => ty.push(Layer::Array),
             Type::Map(ty) => ty.push(Layer::Map),
-        } {
+        }
+    }
+
+    /// Converts a [`Type`] into a [`CompoundType`].
+    #[inline]
+    pub const fn from_type(ty: Type) -> Self {
+        match Self::try_from_type(ty) {
             Some(ty) => ty,
             None => panic!("Could not convert type to compound type"),
         }
